@@ -210,6 +210,13 @@ def amap_method(engine, st, last, args, dest_ty):
         old = mp.entries[i][1]
         mp.entries[i] = (mp.entries[i][0], args[2])
         return mk_option(True, old, ty=dest_ty)
+    if last == 'entry':
+        key = copy_value(deref_all(args[1])) if isinstance(args[1], RefV) else args[1]
+        return Agg('hash_entry', [mp, key], 'hash_entry')
+    if last == 'into_keys':
+        return IterV([k for k, _ in mp.entries])
+    if last == 'into_values':
+        return IterV([v for _, v in mp.entries])
     if last == 'remove':
         i = locate(args[1])
         if i is None:
@@ -664,6 +671,20 @@ def std_trait(engine, st, ty, tyb, tb, method, args, dest_ty, trait=None):
             raise Inconclusive(f'structural equality of {a!r} and {b!r}')
         t = zs(veq(deref_all(args[0]), deref_all(args[1])))
         return BV(t if method == 'eq' else zs(z3.Not(t)))
+    if tyb == 'Option' and tb == 'PartialOrd' and method in ('lt', 'le', 'gt', 'ge'):
+        # derived order of Option: None < Some(_); Some compared by payload (integers only here)
+        a, b = option_arg(args[0]), option_arg(args[1])
+        sa, sb = opt_is_some(a), opt_is_some(b)
+        pa = deref_all(a.payload[1][0]).t if 1 in a.payload else z3.IntVal(0)
+        pb = deref_all(b.payload[1][0]).t if 1 in b.payload else z3.IntVal(0)
+        lt = z3.Or(z3.And(z3.Not(sa), sb), z3.And(sa, sb, pa < pb))
+        eq = z3.Or(z3.And(z3.Not(sa), z3.Not(sb)), z3.And(sa, sb, pa == pb))
+        t = {'lt': lt, 'le': z3.Or(lt, eq), 'gt': z3.Not(z3.Or(lt, eq)), 'ge': z3.Not(lt)}[method]
+        return BV(zs(t))
+    if ty.strip().startswith('(') and tb == 'PartialEq' and method in ('eq', 'ne'):
+        # tuples of plain values (strings, integers): component-wise structural equality
+        t = zs(value_eq(deref_all(args[0]), deref_all(args[1])))
+        return BV(t if method == 'eq' else zs(z3.Not(t)))
     if tyb == 'Ordering' and tb == 'PartialEq' and method in ('eq', 'ne'):
         a, b = deref_all(args[0]), deref_all(args[1])
         t = a.discr == b.discr
@@ -1011,6 +1032,23 @@ def std_path(engine, st, name, args, dest_ty):
                 return mk_option(True, RefV(mp, k), ty=dest_ty)
             return mk_option(False, ty=dest_ty)
         raise Inconclusive(f'hash map lookup {name}')
+    if args and isinstance(args[0], Agg) and args[0].kind == 'hash_entry' and last in ('or_insert_with', 'or_default', 'or_insert'):
+        mp, key = args[0].fields
+        for i, (k, _) in enumerate(mp.entries):
+            if engine.split_bool(st, zs(value_eq(k, key))):
+                return RefV(mp, i, True)
+        if last == 'or_insert_with':
+            v = engine.call_closure(st, args[1], [])
+        elif last == 'or_insert':
+            v = args[1]
+        else:
+            v = default_for(engine, re.sub(r'^&mut\s+', '', (dest_ty or '').strip()))
+        mp.entries.append((key, v))
+        return RefV(mp, len(mp.entries) - 1, True)
+    if ('HashSet' in name or 'HashMap' in name) and last in ('new', 'default', 'with_capacity') and getattr(engine.env, 'symbolic_maps', False) \
+            and not (args and type(deref_all(args[0])).__name__ in ('AMapV', 'ASetV')):
+        from symex import AMapV
+        return AMapV(is_set='HashSet' in name.split('::')[-2] if len(segs) >= 2 else 'HashSet' in name)
     if 'HashSet' in name or 'HashMap' in name:
         s = deref_all(args[0])
         if isinstance(s, SetV):
